@@ -52,12 +52,41 @@ func bytesOf(n int) []byte {
 	return b
 }
 
+// utf8Of returns n bytes of well-formed multi-byte UTF-8 (2-, 3- or 4-byte characters), padded with ASCII.
+func utf8Of(n, width int) []byte {
+	unit := map[int]string{2: "é", 3: "€", 4: "𝄞"}[width]
+	var b []byte
+	for len(b)+len(unit) <= n {
+		b = append(b, unit...)
+	}
+	for len(b) < n {
+		b = append(b, 'x')
+	}
+	return b
+}
+
 // c09Setter returns the setter, whether it must be accepted, and the check of
 // the error class.
 func c09Setter(name string, n, pre int) (s stun.Setter, accept bool, classOK func(error) bool, class string) {
 	overflow := func(err error) bool { return stun.IsAttrSizeOverflow(err) }
 	badIP := func(err error) bool { return errors.Is(err, stun.ErrBadIPLength) }
 	ipOK := n == 4 || n == 16
+	if len(name) > 5 && name[:5] == "utf8:" { // utf8:<width>:<setter>
+		width := int(name[5] - '0')
+		v := utf8Of(n, width)
+		switch name[7:] {
+		case "Username":
+			return stun.Username(v), n <= 513, overflow, "IsAttrSizeOverflow"
+		case "Realm":
+			return stun.Realm(v), n <= 763, overflow, "IsAttrSizeOverflow"
+		case "Nonce":
+			return stun.Nonce(v), n <= 763, overflow, "IsAttrSizeOverflow"
+		case "Software":
+			return stun.Software(v), n <= 763, overflow, "IsAttrSizeOverflow"
+		case "ErrorCodeAttribute":
+			return stun.ErrorCodeAttribute{Code: 401, Reason: v}, n <= 763, overflow, "IsAttrSizeOverflow"
+		}
+	}
 	switch name {
 	case "Username":
 		return stun.Username(bytesOf(n)), n <= 513, overflow, "IsAttrSizeOverflow"
@@ -235,6 +264,19 @@ func init() {
 				}{{"Username", 513}, {"Realm", 763}, {"Nonce", 763}, {"Software", 763}, {"ErrorCodeAttribute", 763}} {
 					for n := 0; n <= ts.max+300; n++ {
 						do(c09Case{Setter: ts.name, N: n, Pre: pre})
+					}
+				}
+				// the limits are byte limits: multi-byte UTF-8 content on both sides of each limit
+				if pre < 2 {
+					for _, ts := range []struct {
+						name string
+						max  int
+					}{{"Username", 513}, {"Realm", 763}, {"Nonce", 763}, {"Software", 763}, {"ErrorCodeAttribute", 763}} {
+						for width := 2; width <= 4; width++ {
+							for n := ts.max - 8; n <= ts.max+300; n++ {
+								do(c09Case{Setter: fmt.Sprintf("utf8:%d:%s", width, ts.name), N: n, Pre: pre})
+							}
+						}
 					}
 				}
 				for _, name := range []string{"XORMappedAddress", "XORMappedAddress.AddToAs", "MappedAddress", "AlternateServer", "ResponseOrigin", "OtherAddress"} {
